@@ -25,6 +25,8 @@ E(toks, title, text, tags) == [toks |-> toks, k |-> "e", name |-> title, ty |-> 
 HostTag1 == <<"host", ":", "h", "1">>
 HostTag2 == <<"host", ":", "h", "2">>
 TagAB    == <<"a", ":", "b">>
+DbHost   == <<"dbhost", ":", "p", "1">>        \* a tag whose key merely ends in "host"
+Long70   == "xxxxxxxxxxxxxxxxxxxxxxxxxxxxxxxxxxxxxxxxxxxxxxxxxxxxxxxxxxxxxxxxxxxxxx"   \* 70 bytes without a name separator
 
 Pool == <<
   M(<<"a", ":", "1", "|", "c">>,                         <<"a">>, "counter", "1", 1, 1, <<>>),
@@ -41,6 +43,10 @@ Pool == <<
                                                           <<"a">>, "counter", "1", 1, 1, <<HostTag1, TagAB>>),
   M(<<"a", ":", "2", "|", "g", "|", "#", "a", ":", "b", ",", "host", ":", "h", "2", ",", "host", ":", "h", "1">>,
                                                           <<"a">>, "gauge", "2", 0, 1, <<TagAB, HostTag2, HostTag1>>),
+  M(<<"a", ":", "1", "|", "c", "|", "#", "dbhost", ":", "p", "1", ",", "host", ":", "h", "1">>,
+                                                          <<"a">>, "counter", "1", 1, 1, <<DbHost, HostTag1>>),
+  M(<<"b", ":", "2", "|", "g", "|", "#", "dbhost", ":", "p", "1">>, <<"b">>, "gauge", "2", 0, 1, <<DbHost>>),
+  B(<<Long70>>),
   B(<<"a", "|", "c">>), B(<<":", "1", "|", "c">>), B(<<"a", ":", "1">>), B(<<"a", ":", "1", "|", "a">>),
   B(<<"a", ":", "x1", "|", "c">>), B(<<"a", ":", "1", "|", "c", "|", "@", "x1">>),
   B(<<>>),
